@@ -366,8 +366,25 @@ def c12_r3(ctx):
         else:
             yield bad("C12-R3", key, at(f), "accumulator initialised from %s" % txt[:200])
     n = 0
+    # closures handed to an iterator adaptor over the components (`components.for_each(|component| ..)`): their
+    # parameter is a component the iterator yields
+    fed = {}
     for b, t in f.all_calls():
         e = eb.call(b, t)
+        if (callee_name(e) or "").split("::")[-1] in ("for_each", "try_for_each") and len(e[3]) == 2:
+            c = e[3][1]
+            while c[0] == "ref":
+                c = c[2]
+            a0 = t["args"][0] if t["args"] else {}
+            rty = a0["place"].get("ty", "") if a0.get("place") else ""
+            if c[0] == "agg" and c[1] == "closure" and "Components" in rty:
+                fed[c[2]] = True
+    sites = [(f, eb, b, t) for b, t in f.all_calls()]
+    for g in ctx.prog.closures_of(f):
+        geb = ExprBuilder(ctx.prog, g)
+        sites.extend((g, geb, b, t) for b, t in g.all_calls())
+    for g, geb, b, t in sites:
+        e = geb.call(b, t)
         if not e[3] or expr_str(e[3][0]) != "&mut " + acc:
             continue
         n += 1
@@ -377,7 +394,10 @@ def c12_r3(ctx):
             yield ok("C12-R3", key, at(f, t["span"]["line"]), "pop")
         elif nm == "push":
             arg = expr_str(e[3][1])
-            if arg.endswith("@Normal.0") and "Iterator>::next(" in arg:
+            par = [vn for vn, l, pj in g.var_places if l == 2 and not pj] if g is not f else []
+            if g is not f and par and arg == par[0] + "@Normal.0" and strip_generics(g.norm) in fed:
+                yield ok("C12-R3", key, at(f, t["span"]["line"]), "push(%s) in the closure fed by the component iterator" % arg)
+            elif arg.endswith("@Normal.0") and "Iterator>::next(" in arg:
                 yield ok("C12-R3", key, at(f, t["span"]["line"]), "push(%s)" % arg[-60:])
             else:
                 yield bad("C12-R3", key, at(f, t["span"]["line"]), "accumulator extended by %s, which is not the payload of a Utf8Component::Normal" % arg[:200])
@@ -614,6 +634,17 @@ def c13_q1(ctx):
                             if c[0] == "discr" and c[1][0] == "call" and (callee_name(c[1]) or "").endswith("FileStore::" + opname):
                                 for v, tgt in ty_["targets"]:
                                     if v == 0 and tgt in dom.get(x, ()):
+                                        okedge = True
+                            # `if op(..).is_ok() {Successful}` / `if op(..).is_err() {..} else {Successful}`
+                            if c[0] == "call" and (callee_name(c) or "").endswith(("Result::is_ok", "Result::is_err")) and len(c[3]) == 1:
+                                inner = c[3][0]
+                                while inner[0] == "ref":
+                                    inner = inner[2]
+                                if inner[0] == "call" and (callee_name(inner) or "").endswith("FileStore::" + opname):
+                                    zero = [tgt for v, tgt in ty_["targets"] if v == 0]
+                                    edge = ty_["otherwise"] if (callee_name(c) or "").endswith("is_ok") else (zero[0] if zero else None)
+                                    other = (zero[0] if zero else None) if (callee_name(c) or "").endswith("is_ok") else ty_["otherwise"]
+                                    if edge is not None and edge != other and edge in dom.get(x, ()):
                                         okedge = True
                         if not okedge:
                             problems.append("Successful is reported outside the Ok edge of %s" % opname)
